@@ -351,7 +351,12 @@ def policy_script(q, i, seed, mode):
             tun["outIP"], tun["outXFF"] = tun.get("mintIP", ""), tun.get("mintXFF", "").split("\n")[0]
         else:
             tun["outIP"], tun["outXFF"] = "127.0.0.9", "172.16.0.9"
-    return {"id": "%s%05d" % (mode[0], i), "origin": "policy:%s" % mode, "cfg": cfg, "transport": transport, "tun": tun, "steps": steps}
+    sc = {"id": "%s%05d" % (mode[0], i), "origin": "policy:%s" % mode, "cfg": cfg, "transport": transport, "tun": tun, "steps": steps}
+    if own_entry:
+        # (kept together on one gateway, one after the other: what a tunnel is allowed must not depend on who used its
+        # connection identifier before - which can only show when somebody did)
+        sc["grp"] = "own-entry"
+    return sc
 
 
 def gen_policy_scripts(work, mode, tier, seed, quick_n=1500):
